@@ -110,15 +110,19 @@ def perm_from(code, n):
     out.append(idx.pop(code % k)); code //= k
   return out
 
-def pick(lst, i):
-  """concretising index: branches on i so the result is a concrete element"""
-  for k in range(len(lst)):
-    if i == k:
-      return lst[k]
-  raise IndexError(i)
-
 def concretize(i, lo, hi):
-  for k in range(lo, hi + 1):
-    if i == k:
-      return k
-  raise ValueError(i)
+  """turn a (symbolic) int known to lie in lo..hi into a concrete int by
+  bisection: O(log n) solver decisions instead of n"""
+  if not (lo <= i <= hi):
+    raise ValueError(i)
+  while lo < hi:
+    mid = (lo + hi) // 2
+    if i <= mid:
+      hi = mid
+    else:
+      lo = mid + 1
+  return lo
+
+def pick(lst, i):
+  """concretising index: the result is a concrete element of lst"""
+  return lst[concretize(i, 0, len(lst) - 1)]
